@@ -39,6 +39,16 @@ check('C18', 'abstract interpretation (affine lower bounds with clamp) of the gr
       'Trusted: constant folding of numeric_limits; arithmetic from the factor to 2*ceil(log2 n)+4 is in the evidence explanation.',
       'DESIGN.md section 4, C18')
 
+check('C09', 'typestate analysis on the structured bodies of the instantiated program (slot holes, pending temporaries, uncommitted raw constructs, size commits) with may-throw points taken from the resolved call graph and evaluated exception specifications',
+      'Decides the static form of both guarantees for every may-throw point of every vector operation and memory algorithm: an opened slot range is closed by a handler, a constructed-but-invisible object is destroyed, nothing observable changes before the last may-throw call of a strong operation, no noexcept function reaches a throw. Covers all throw indices k at once because it quantifies over program points, not runs.',
+      'Partial: values after a failed operation, std::sort/inplace_merge internals and throwing destructors are not decided. Known findings F9/F20 are listed in known_findings.txt.',
+      'DESIGN.md section 4, C09')
+
+check('C10', 'effect-ordering (typestate) analysis: no read of an element-reference argument after an element-moving effect, with the re-basing overloads checked by the same engine',
+      'Decides, for every operation of C10 x flavour x element category, that the argument is only read before any element is moved/destroyed/reallocated or through the re-based reference; a necessary and (with C01) sufficient condition for "as if copied first".',
+      'Partial: the resulting sequence itself is C01. rvalue arguments are assumed not to alias (as std::vector).',
+      'DESIGN.md section 4, C10')
+
 PENDING = ['C01','C02','C03','C04','C05','C06','C07','C08','C09','C10','C11','C13','C14','C15','C16','C18','C19','C20']
 for p in PENDING:
     if p not in CHECKS:
